@@ -49,8 +49,22 @@ RULE = ("warmed-up KafkaClient (metadata, coordinator cached; broker connections
         "delivered afterwards) or silent; a connection attempt may never complete; replies in any order.  Oracle: every call resolves within its bound of "
         "virtual time; a timeout is reported only at the bound, and only if the reply had not arrived; without faults "
         "other than delay no call fails for another reason; once all calls completed no request timer is armed; a "
-        "late reply never changes a completed call; no exception escapes into the reactor.")
+        "late reply never changes a completed call; no exception escapes into the reactor.  group-join-in-situ: the "
+        "real ConsumerGroup with session timeout {6, 30, 60 s} x client timeout {5, 40 s}: every request timer armed "
+        "is the client timeout or, for a JoinGroup, max(timeout, 35 s), whatever the session timeout.")
 ASSUME = ["virtual time advances only through timer events, so 'late by any amount' is 'the timer fires first'"]
+
+
+def group_configs(tier):
+    """The group member's own requests (JoinGroup with the stated 35 s minimum) for several session timeouts."""
+    out = []
+    cl = {"brokers": [1, 2], "topics": {"t": {"0": 1, "1": 2}}, "coordinator": 2}
+    for session, timeout in itertools.product([6000, 30000, 60000], [5000, 40000]):
+        out.append({"cluster": cl, "discovery": False, "timeout_ms": timeout, "topics": ["t"],
+                    "session_timeout_ms": session, "logs": {"t/0": 1, "t/1": 1}, "group": {"leader": "real"},
+                    "processor": "sync", "commit_every_n": 1, "script": [["start"], ["stop", {"consumed": True}]],
+                    "menu": {"silent": True, "timer_early": True, "err": {"12": [27]}}, "horizon_s": 400})
+    return out
 
 
 def run(tier, seed, only=None):
@@ -58,4 +72,8 @@ def run(tier, seed, only=None):
         plans = [("mixes-4dev", configs(tier), (2, 3, 4))]
     else:
         plans = [("mixes-5dev", configs(tier), (3, 4, 5))]
-    return _dfs.run_plans(PROPERTY, SPEC, plans, seed, RULE, ASSUME, max_steps=300)
+    rep = _dfs.run_plans(PROPERTY, SPEC, plans, seed, RULE, ASSUME, max_steps=300)
+    _dfs.run_plans(PROPERTY, "harness.group:GroupWorld",
+                   [("group-join-in-situ", group_configs(tier), (1, 1, 2) if tier == "quick" else (2, 1, 3))],
+                   seed, RULE, ASSUME, rep=rep, max_steps=500)
+    return rep
